@@ -137,6 +137,21 @@ Definition chk_equery (table : list dict) (qy : equery) : bool :=
   | _, _ => false
   end.
 
+(* the summary printed at the end of Tuner.run(): implementation answer (trial, value) or None *)
+Definition squery := (list key * modes * option (Z * num))%type.
+Definition chk_squery (ts : tstatus) (qy : squery) : bool :=
+  let '(names, ms, impl) := qy in
+  match tuner_final_summary names ms ts, impl with
+  | None, None => true
+  | Some (_, v), Some (t', v') =>
+      num_eqb v v' &&
+      match names, aget Z.eqb t' (ts_trials ts) with
+      | name :: _, Some s => num_eqb (per_trial_opt (summary_mode ms) name s) v
+      | _, _ => false
+      end
+  | _, _ => false
+  end.
+
 Record case := {
   c_wallclock : bool;
   c_events : list event;
@@ -149,7 +164,8 @@ Record case := {
   c_bq : list bquery;
   c_tq : list tquery;
   c_table : list dict;                             (* rows of the table read back from disk *)
-  c_eq : list equery
+  c_eq : list equery;
+  c_sq : list squery
 }.
 
 Definition chk_rows (c : case) : bool :=
@@ -165,12 +181,14 @@ Definition chk_stats (c : case) : bool :=
 Definition chk_best (c : case) : bool :=
   let ts := ts_run (c_history c) in
   forallb (chk_bquery ts) (c_bq c) && forallb (chk_tquery ts (c_backend c)) (c_tq c).
+Definition chk_summary (c : case) : bool := forallb (chk_squery (ts_run (c_history c))) (c_sq c).
 Definition chk_exp (c : case) : bool := forallb (chk_equery (c_table c)) (c_eq c).
 
-(* 0 = all fine; otherwise bit mask of failing parts: 1 rows, 2 statistics, 4 best (tuner), 8 best (experiment) *)
+(* 0 = all fine; otherwise bit mask of failing parts: 1 rows, 2 statistics, 4 best (tuner), 8 best (experiment),
+   16 final summary *)
 Definition chk_mask (c : case) : Z :=
   ((if chk_rows c then 0 else 1) + (if chk_stats c then 0 else 2) +
-   (if chk_best c then 0 else 4) + (if chk_exp c then 0 else 8))%Z.
+   (if chk_best c then 0 else 4) + (if chk_exp c then 0 else 8) + (if chk_summary c then 0 else 16))%Z.
 Definition chk_case (c : case) : bool := Z.eqb (chk_mask c) 0.
 """
 
@@ -518,9 +536,19 @@ def quiet():
     sink = io.StringIO()
     try:
         with contextlib.redirect_stdout(sink):
-            yield
+            yield sink
     finally:
         logging.disable(logging.NOTSET)
+
+
+def parse_summary(text):
+    """the line `<metric>: best <value> for trial-id <id>` printed by print_best_metric_found"""
+    import re
+    found = re.findall(r"^(.+): best (\S+) for trial-id (\d+)$", text, flags=re.M)
+    if not found:
+        return None
+    _, v, t = found[-1]
+    return int(t), float(v)
 
 
 def read_table(path):
@@ -605,7 +633,8 @@ def exp_queries(er, names):
     return out
 
 
-def build_case(tb, wallclock, events, rows, history, overall, per_trial, backend_cfgs, names, mode, bq, tq, table, eqs):
+def build_case(tb, wallclock, events, rows, history, overall, per_trial, backend_cfgs, names, mode, bq, tq, table, eqs,
+               summaries=()):
     names_t = lst([key_term(tb, n) for n in names])
     ms = modes_term(mode)
     ev_terms = []
@@ -631,21 +660,23 @@ def build_case(tb, wallclock, events, rows, history, overall, per_trial, backend
                                       optlit(b, lambda b: "(%s, %s)" % (zlit(b[0]), cfg_term(tb, b[1])))) for m, b in tq])
     eq_t = lst(["(%s, %s, %s, %s)" % (names_t, ms, mref_term(tb, m), optlit(c, lambda c: dict_term(tb, c)))
                 for m, c in eqs])
+    sq_t = lst(["(%s, %s, %s)" % (names_t, ms, optlit(b, lambda b: "(%s, %s)" % (zlit(b[0]), num_term(b[1]))))
+                for b in summaries])
     return ("{| c_wallclock := %s;\n c_events := %s;\n c_rows := %s;\n c_history := %s;\n c_tol := %s;\n"
             " c_overall := %s;\n c_trials := %s;\n c_backend := %s;\n c_bq := %s;\n c_tq := %s;\n c_table := %s;\n"
-            " c_eq := %s |}" % (
+            " c_eq := %s;\n c_sq := %s |}" % (
                 blit(wallclock), lst(ev_terms), lst([dict_term(tb, r) for r in rows]), hist, q(1e-9 * mag),
                 istats_term(tb, overall),
                 lst(["(%s, %s)" % (zlit(t), istats_term(tb, s)) for t, s in per_trial.items()]),
                 lst(["(%s, %s)" % (zlit(t), cfg_term(tb, c)) for t, c in backend_cfgs.items()]),
-                bq_t, tq_t, lst([dict_term(tb, r) for r in table]), eq_t))
+                bq_t, tq_t, lst([dict_term(tb, r) for r in table]), eq_t, sq_t))
 
 
 SKIP_DISK = object()
 
 
 def property_checks(ctx, case, kind, deliveries, rows, wallclock, df, handed, overall, per_trial, names, mode, bq, tq,
-                    table, eqs, sched=None):
+                    table, eqs, sched=None, summaries=()):
     """independent checker; every failure is a `property` violation with a structural signature"""
     def bad(part, why, **sig):
         s = dict(part=part, kind=kind)
@@ -678,6 +709,12 @@ def property_checks(ctx, case, kind, deliveries, rows, wallclock, df, handed, ov
         why = check_best_exp(table, name, md, c)
         if why:
             bad("best_experiment", why, mode=md)
+    for b in summaries:
+        name, md = mode_of(names, mode, 0)
+        why = check_best_tuner(handed, name, md, b)
+        if why:
+            bad("final_summary", "summary printed at the end of Tuner.run(): " + why, mode=md,
+                mode_is_list=isinstance(mode, list))
 
 
 # --------------------------------------------------------------------------
@@ -807,11 +844,15 @@ def run_seq(ctx, spec, workdir):
     overall = stats_obs(ts.overall_metric_statistics)
     per_trial = {int(t): stats_obs(s) for t, s in ts.trial_metric_statistics.items()}
     bq, tq = observe_best(ts, names, mode, backend_cfgs)
+    from syne_tune.tuning_status import print_best_metric_found
+    with quiet() as out:  # exactly the call in the `finally` block of Tuner.run()
+        print_best_metric_found(tuning_status=ts, metric_names=list(names), mode=copy.copy(mode))
+    summaries = [parse_summary(out.getvalue())]
     table = table_rows(df) if df is not None else []
     eqs = observe_exp(ctx, df, names, mode, workdir) if df is not None and len(df.columns) else []
     return dict(deliveries=deliveries, events=events, handed=handed, history=history, rows=rows, df=df,
                 overall=overall, per_trial=per_trial, backend_cfgs=backend_cfgs, bq=bq, tq=tq, table=table, eqs=eqs,
-                stores=list(cb.store_sizes), arg_untouched=prefix_ok)
+                stores=list(cb.store_sizes), arg_untouched=prefix_ok, summaries=summaries)
 
 
 def seq_nontrivial(spec, obs):
@@ -1094,7 +1135,7 @@ def run_whole(ctx, spec):
     RecordingStore = make_recording_callback()
     mod = experiments_module(ctx)
     names, mode = spec["names"], spec["mode"]
-    with quiet():
+    with quiet() as out:
         inner, limit_attr = build_scheduler(spec)
         sched = cls.RecordingScheduler(inner)
         backend = cls.ScriptedBackend(spec["scripts"], spec["chunks"], spec["outcomes"], limit_attr)
@@ -1108,6 +1149,7 @@ def run_whole(ctx, spec):
                       tuner_name=spec["name"], suffix_tuner_name=False, save_tuner=False, callbacks=[store, rec])
         tuner.tuning_status = cls.RecordingStatus(metric_names=list(names))
         tuner.run()
+        summaries = [parse_summary(out.getvalue())]
         ts = tuner.tuning_status
         rows = [dict(r) for r in store.results]
         deliveries = [dict(d, status=st) for d, st in zip(sched.delivered, rec.statuses)]
@@ -1145,7 +1187,7 @@ def run_whole(ctx, spec):
     table = table_rows(df) if df is not None else []
     return dict(deliveries=deliveries, events=events, handed=list(rec.handed), history=list(ts.calls), rows=rows, df=df,
                 overall=overall, per_trial=per_trial, backend_cfgs=backend_cfgs, bq=bq, tq=tq, table=table, eqs=eqs,
-                stores=stores, n_delivered=n_delivered, meta_ok=meta_ok)
+                stores=stores, n_delivered=n_delivered, meta_ok=meta_ok, summaries=summaries)
 
 
 def run_cases(ctx, replay):
@@ -1184,7 +1226,7 @@ def run_cases(ctx, replay):
         property_checks(ctx, case, "run", obs["deliveries"], obs["rows"], True,
                         obs["df"] if experiments_module(ctx) is not None else SKIP_DISK,
                         obs["handed"], obs["overall"], obs["per_trial"], spec["names"], spec["mode"], obs["bq"],
-                        obs["tq"], obs["table"], obs["eqs"], sched=sched)
+                        obs["tq"], obs["table"], obs["eqs"], sched=sched, summaries=obs["summaries"])
         if (obs["stores"] or [0])[-1] != len(obs["rows"]):
             ctx.violation("property", "disk: last store wrote %r rows of %d" % (obs["stores"][-1:], len(obs["rows"])),
                           case=case, signature=dict(part="disk", kind="run", scheduler=sched,
@@ -1192,7 +1234,7 @@ def run_cases(ctx, replay):
         tb = Tables()
         terms.append(build_case(tb, True, obs["events"], obs["rows"], obs["history"], obs["overall"], obs["per_trial"],
                                 obs["backend_cfgs"], spec["names"], spec["mode"], obs["bq"], obs["tq"], obs["table"],
-                                obs["eqs"]))
+                                obs["eqs"], summaries=obs["summaries"]))
         meta.append(case)
         if len(obs["rows"]) >= 3 and not getattr(ctx, "_c17_run_sampled", False):
             ctx._c17_run_sampled = True
@@ -1252,7 +1294,7 @@ def seq_cases(ctx, replay):
         ctx.h("seq_trials_without_results", sum(1 for s in obs["per_trial"].values() if s["count"] == 0) > 0)
         property_checks(ctx, case, "seq", obs["deliveries"], obs["rows"], spec["wallclock"], obs["df"], obs["handed"],
                         obs["overall"], obs["per_trial"], spec["names"], spec["mode"], obs["bq"], obs["tq"],
-                        obs["table"], obs["eqs"])
+                        obs["table"], obs["eqs"], summaries=obs["summaries"])
         if not obs["arg_untouched"]:
             ctx.violation("property", "rows: on_trial_result modified the result dict it was given", case=case,
                           signature=dict(part="rows", kind="seq", defect="result_not_copied"))
@@ -1263,7 +1305,7 @@ def seq_cases(ctx, replay):
         tb = Tables()
         terms.append(build_case(tb, spec["wallclock"], obs["events"], obs["rows"], obs["history"], obs["overall"],
                                 obs["per_trial"], obs["backend_cfgs"], spec["names"], spec["mode"], obs["bq"],
-                                obs["tq"], obs["table"], obs["eqs"]))
+                                obs["tq"], obs["table"], obs["eqs"], summaries=obs["summaries"]))
         meta.append(case)
         if i == 0:
             ctx.sample(dict(kind="seq", names=spec["names"], mode=spec["mode"], n_ops=len(spec["ops"]),
@@ -1273,7 +1315,7 @@ def seq_cases(ctx, replay):
     report_model_mismatches(ctx, "seq", terms, meta)
 
 
-PARTS = {1: "rows (cb_run / make_row)", 2: "statistics (ts_run / stats_add)",
+PARTS = {16: "final summary of Tuner.run (tuner_final_summary)", 1: "rows (cb_run / make_row)", 2: "statistics (ts_run / stats_add)",
          4: "best trial (print_best / tuner_best_config)", 8: "best row (exp_best_config)"}
 
 
@@ -1288,7 +1330,7 @@ def report_model_mismatches(ctx, tag, terms, meta):
         try:
             bits = int(mk.split()[0].strip("()%Z"))
         except ValueError:
-            bits = 15
+            bits = 31
         parts = [v for b, v in PARTS.items() if bits & b]
         ctx.violation("correspondence", "model and implementation differ on: " + "; ".join(parts), case=meta[i],
                       failing_input=False, broken="correspondence chk_case (model/Results.v): " + "; ".join(parts))
